@@ -187,6 +187,99 @@ pub fn check_preads(trace: &[Ev]) -> Result<u64, Fail> {
     Ok(trace.iter().filter(|e| matches!(e, Ev::Pread { .. })).count() as u64)
 }
 
+/// Readers against a *draining* worker, free-running (no gating): each round the caller queues
+/// a few hundred one-entry appends with fire-and-forget flushes (a chunk rotation every 4
+/// records, a cache of 3 items), then 4 reader threads read ranges for as long as the worker is
+/// still working the queue off — every sync takes the cache's write lock to move the eviction
+/// boundary. The oracle does not depend on the interleaving: ids only grow, so every read must
+/// succeed with exactly the entries appended. This stresses what the gated schedules cannot
+/// own: the hand-over of the cache lock between readers and the worker's boundary update.
+pub fn drain_stress(seed: u64, rounds: u32) -> Result<(u64, u64), Fail> {
+    use raft_log::api::raft_log_writer::RaftLogWriter;
+    let dir = crate::driver::fresh_dir("drain");
+    let threads0 = crate::trace::nr_threads();
+    let cfg = std::sync::Arc::new(raft_log::Config {
+        dir: dir.clone(),
+        chunk_max_records: Some(4),
+        log_cache_max_items: Some(3),
+        read_buffer_size: Some(4096),
+        ..Default::default()
+    });
+    let r = (|| -> Result<(u64, u64), Fail> {
+        let mut rl = raft_log::RaftLog::<crate::types::VT>::open(cfg).map_err(|e| Fail::new("open-fresh", e.to_string()))?;
+        let mut next = 0u64;
+        let mut first = 0u64;
+        let mut reads = 0u64;
+        let mut reads_while_busy = 0u64;
+        for round in 0..rounds {
+            let burst = 150 + (mix(seed, round as u64) % 250);
+            for _ in 0..burst {
+                rl.append([((1, next), format!("d{next}"))]).map_err(|e| Fail::new("legal-write-refused", format!("append: {e}")))?;
+                rl.flush(None).map_err(|e| Fail::new("flush-call-err", e.to_string()))?;
+                next += 1;
+            }
+            let rlr = &rl;
+            let (lo, hi) = (first, next);
+            let res: Vec<Result<(u64, u64), Fail>> = std::thread::scope(|s| {
+                let hs: Vec<_> = (0..4u64)
+                    .map(|t| {
+                        s.spawn(move || -> Result<(u64, u64), Fail> {
+                            let mut n = 0u64;
+                            let mut busy = 0u64;
+                            let mut it = 0u64;
+                            loop {
+                                let idle = rlr.verif_worker_idle();
+                                let r = mix(seed, t * 7919 + it);
+                                let (a, b) = match it % 3 {
+                                    0 => (hi.saturating_sub(1 + r % 12).max(lo), hi),
+                                    1 => (lo + r % (hi - lo), (lo + r % (hi - lo) + 1 + (r >> 32) % 6).min(hi)),
+                                    _ => (lo, hi),
+                                };
+                                match read_all(rlr, a, b) {
+                                    Ok(got) => {
+                                        let ok = got.len() as u64 == b - a && got.iter().enumerate().all(|(k, (id, p))| *id == (1, a + k as u64) && *p == format!("d{}", a + k as u64));
+                                        if !ok {
+                                            return Err(Fail::new("read-mismatch", format!("reader {t} while the worker drains its queue: read({a},{b}) returned {:?}", crate::driver::brief(&got))));
+                                        }
+                                    }
+                                    Err(e) => return Err(Fail::new("read-error", format!("reader {t} while the worker drains its queue ({} requests were queued): read({a},{b}) returned an error: {e}", 2 * (hi - lo)))),
+                                }
+                                n += 1;
+                                if !idle {
+                                    busy += 1;
+                                }
+                                it += 1;
+                                if idle && it >= 6 {
+                                    return Ok((n, busy));
+                                }
+                            }
+                        })
+                    })
+                    .collect();
+                hs.into_iter().map(|h| h.join().unwrap_or_else(|p| Err(Fail::new("panic", format!("reader thread panicked: {}", crate::driver::panic_msg(&p)))))).collect()
+            });
+            for x in res {
+                let (n, b) = x?;
+                reads += n;
+                reads_while_busy += b;
+            }
+            // keep the log short
+            if next - first > 600 {
+                let upto = next - 300;
+                rl.purge((1, upto)).map_err(|e| Fail::new("legal-write-refused", format!("purge: {e}")))?;
+                rl.flush(None).map_err(|e| Fail::new("flush-call-err", e.to_string()))?;
+                first = upto + 1;
+            }
+        }
+        rl.wait_worker_idle();
+        drop(rl);
+        Ok((reads, reads_while_busy))
+    })();
+    crate::trace::wait_threads(threads0, crate::driver::WATCHDOG);
+    crate::driver::remove_dir(&dir);
+    r
+}
+
 impl Prop for C07 {
     fn id(&self) -> &'static str {
         "C07"
@@ -216,6 +309,20 @@ impl Prop for C07 {
     }
     fn strategy(&self, tier: Tier) -> BoxedStrategy<Case> {
         case_strategy(&profile(tier))
+    }
+    fn extra(&self, ctx: &Ctx, shard: usize, rep: &mut crate::runner::ShardReport) {
+        if shard >= 4 {
+            return;
+        }
+        let rounds = if ctx.tier == Tier::Quick { 12 } else { 150 };
+        match drain_stress(mix(ctx.seed, 600 + shard as u64), rounds) {
+            Ok((reads, busy)) => {
+                rep.evaluations += reads;
+                *rep.labels.entry("drain_stress_reads".into()).or_insert(0) += reads;
+                *rep.labels.entry("drain_stress_reads_while_worker_busy".into()).or_insert(0) += busy;
+            }
+            Err(f) => rep.violations.push(crate::runner::Violation { key: format!("drain-stress/{}", f.key), msg: f.msg, case: serde_json::to_value(crate::ops::sample_case()).unwrap(), origin: "drain stress (real threads; may not reproduce from the replay file)".into() }),
+        }
     }
     fn run_case(&self, case: &Case, ctx: &Ctx) -> Result<CaseInfo, Fail> {
         let mut info = CaseInfo::default();
